@@ -3,21 +3,121 @@ From LLB Require Import Base.Bytes Base.BytesFacts Path.ShellQuote Parse.NinjaEv
 From LLB Require Parse.NinjaLex.
 Local Open Scope N_scope.
 
-(* ---------------------------------------------------------------- evalString *)
+(* ================================================================ evalString *)
 
 Definition no_dollar (s : bytes) : Prop := Forall (fun b => b <> 36) s.
+Definition all_space (s : bytes) : Prop := Forall (fun b => NinjaLex.is_space b = true) s.
+Definition all_simple (s : bytes) : Prop := Forall (fun b => NinjaLex.is_simple_ident_char b = true) s.
+Definition no_close_brace (s : bytes) : Prop := Forall (fun b => b <> 125) s.
+(* the rest of the text does not continue a run of blanks / a simple identifier *)
+Definition not_space_head (s : bytes) : Prop := match s with [] => True | b :: _ => NinjaLex.is_space b = false end.
+Definition not_simple_head (s : bytes) : Prop :=
+  match s with [] => True | b :: _ => NinjaLex.is_simple_ident_char b = false end.
 
 Section EvalFacts.
   Context {E : Type}.
   Variable wrap : eval_err -> E.
   Variable lookup : bytes -> bytes * list E.
 
-  Lemma eval_go_text_literal s : no_dollar s -> eval_go wrap lookup EvText s = (s, []).
+  Notation ev := (eval_string wrap lookup).
+  Notation go := (eval_go wrap lookup).
+
+  Lemma ev_then_nil_l r : ev_then (@ev_done E) r = r.
+  Proof. destruct r; reflexivity. Qed.
+
+  (* the scanner in text mode, one byte *)
+  Lemma go_text_cons b s : go EvText (b :: s) = if b =? 36 then go EvDollar s else ev_emit b (go EvText s).
+  Proof. reflexivity. Qed.
+
+  (* literal text is copied; evaluation continues behind it *)
+  Lemma go_text_prefix t s : no_dollar t -> go EvText (t ++ s) = (t ++ fst (go EvText s), snd (go EvText s)).
   Proof.
-    induction 1 as [|b s Hb Hs IH]; [reflexivity|].
-    cbn [eval_go]. apply N.eqb_neq in Hb. rewrite Hb, IH. reflexivity.
+    induction 1 as [|b t Hb Ht IH]; [cbn [app]; destruct (go EvText s); reflexivity|].
+    cbn [app]. rewrite go_text_cons. apply N.eqb_neq in Hb. rewrite Hb, IH. reflexivity.
   Qed.
 
-  Theorem eval_string_literal s : no_dollar s -> eval_string wrap lookup s = (s, []).
-  Proof. apply eval_go_text_literal. Qed.
+  Theorem eval_text_prefix t s : no_dollar t -> ev (t ++ s) = (t ++ fst (ev s), snd (ev s)).
+  Proof. apply go_text_prefix. Qed.
+
+  Theorem eval_string_literal s : no_dollar s -> ev s = (s, []).
+  Proof. intros H. rewrite <- (app_nil_r s) at 1. rewrite eval_text_prefix by exact H. cbn. rewrite app_nil_r. reflexivity. Qed.
+
+  (* $$  $<space>  $:  *)
+  Theorem eval_escape_char c s : c = 36 \/ c = 32 \/ c = 58 -> ev (36 :: c :: s) = ev_emit c (ev s).
+  Proof. intros [H|[H|H]]; subst c; reflexivity. Qed.
+
+  (* $<newline> and the blanks that follow it vanish *)
+  Lemma go_skip ws s : all_space ws -> not_space_head s -> go EvSkip (ws ++ s) = go EvText s.
+  Proof.
+    induction 1 as [|b ws Hb Hws IH]; intros Hs.
+    - destruct s as [|b s]; [reflexivity|]. cbn in Hs. cbn [app eval_go]. rewrite Hs. reflexivity.
+    - cbn [app eval_go]. rewrite Hb. apply IH. exact Hs.
+  Qed.
+
+  Theorem eval_line_continuation ws s : all_space ws -> not_space_head s -> ev (36 :: 10 :: ws ++ s) = ev s.
+  Proof. intros Hw Hs. change (ev (36 :: 10 :: ws ++ s)) with (go EvSkip (ws ++ s)). apply go_skip; assumption. Qed.
+
+  Theorem eval_dollar_at_end : ev [36] = ([], [wrap EvDollarAtEnd]).
+  Proof. reflexivity. Qed.
+
+  (* ${name} *)
+  Lemma go_brace name acc v s : no_close_brace name ->
+    go (EvBrace acc v) (name ++ 125 :: s) =
+    ev_then (if v && forallb NinjaLex.is_ident_char name then lookup (rev acc ++ name) else ([], [wrap EvBadVarName]))
+            (go EvText s).
+  Proof.
+    intros H. revert acc v. induction H as [|b name Hb Hn IH]; intros acc v.
+    - cbn [app eval_go forallb]. rewrite andb_true_r, app_nil_r. reflexivity.
+    - cbn [app eval_go]. apply N.eqb_neq in Hb. rewrite Hb. rewrite IH. cbn [rev forallb].
+      rewrite <- app_assoc. cbn [app]. rewrite andb_assoc. reflexivity.
+  Qed.
+
+  Theorem eval_braced name s : no_close_brace name ->
+    ev (36 :: 123 :: name ++ 125 :: s) =
+    ev_then (if forallb NinjaLex.is_ident_char name then lookup name else ([], [wrap EvBadVarName])) (ev s).
+  Proof. intros H. change (ev (36 :: 123 :: name ++ 125 :: s)) with (go (EvBrace [] true) (name ++ 125 :: s)). rewrite go_brace by exact H. reflexivity. Qed.
+
+  Lemma go_brace_open name acc v : no_close_brace name -> go (EvBrace acc v) name = ([], [wrap EvMissingBrace]).
+  Proof.
+    intros H. revert acc v. induction H as [|b name Hb Hn IH]; intros acc v; [reflexivity|].
+    cbn [eval_go]. apply N.eqb_neq in Hb. rewrite Hb. apply IH.
+  Qed.
+
+  Theorem eval_braced_unterminated name : no_close_brace name -> ev (36 :: 123 :: name) = ([], [wrap EvMissingBrace]).
+  Proof. intros H. apply (go_brace_open name [] true H). Qed.
+
+  (* $name: the longest run of simple identifier characters *)
+  Lemma go_simple name acc s : all_simple name -> not_simple_head s ->
+    go (EvSimple acc) (name ++ s) = ev_then (lookup (rev acc ++ name)) (go EvText s).
+  Proof.
+    intros H. revert acc. induction H as [|b name Hb Hn IH]; intros acc Hs.
+    - rewrite app_nil_r. destruct s as [|b s]; cbn [app eval_go].
+      + destruct (lookup (rev acc)); unfold ev_then; cbn. rewrite !app_nil_r. reflexivity.
+      + cbn in Hs. rewrite Hs. reflexivity.
+    - cbn [app eval_go]. rewrite Hb. rewrite IH by exact Hs. cbn [rev]. rewrite <- app_assoc. reflexivity.
+  Qed.
+
+  Theorem eval_simple_var_longest b name s : all_simple (b :: name) -> not_simple_head s ->
+    ev (36 :: (b :: name) ++ s) = ev_then (lookup (b :: name)) (ev s).
+  Proof.
+    intros H Hs. inversion H as [|b' n' Hb Hn]; subst.
+    assert (Hd : go EvDollar ((b :: name) ++ s) = go (EvSimple [b]) (name ++ s)).
+    { cbn [app eval_go]. rewrite Hb.
+      destruct (b =? 10) eqn:E10; [apply N.eqb_eq in E10; subst b; discriminate Hb|].
+      destruct (b =? 32) eqn:E32; [apply N.eqb_eq in E32; subst b; discriminate Hb|].
+      destruct (b =? 58) eqn:E58; [apply N.eqb_eq in E58; subst b; discriminate Hb|].
+      destruct (b =? 36) eqn:E36; [apply N.eqb_eq in E36; subst b; discriminate Hb|].
+      destruct (b =? 123) eqn:E123; [apply N.eqb_eq in E123; subst b; discriminate Hb|].
+      reflexivity. }
+    change (ev (36 :: (b :: name) ++ s)) with (go EvDollar ((b :: name) ++ s)). rewrite Hd.
+    rewrite go_simple by assumption. reflexivity.
+  Qed.
+
+  Theorem eval_bad_escape b s :
+    b <> 10 -> b <> 32 -> b <> 58 -> b <> 36 -> b <> 123 -> NinjaLex.is_simple_ident_char b = false ->
+    ev (36 :: b :: s) = ([], [wrap EvBadEscape]).
+  Proof.
+    intros H1 H2 H3 H4 H5 H6. change (ev (36 :: b :: s)) with (go EvDollar (b :: s)). cbn [eval_go].
+    apply N.eqb_neq in H1, H2, H3, H4, H5. rewrite H1, H2, H3, H4, H5, H6. reflexivity.
+  Qed.
 End EvalFacts.
